@@ -312,6 +312,12 @@ def register(M):
     reg('Option', None, 'as_ref', opt_as_ref)
     reg('Option', None, 'as_mut', opt_as_ref)
 
+    def opt_iter(m, a, k):
+        r = innermost_ref(m, a[0])
+        o = val(m, r)
+        return seq_iter([Ref(r.cell, r.path + (0,))] if o.var == 1 else [])
+    reg('Option', None, 'iter', opt_iter)
+
     def opt_take(m, a, k):
         r = innermost_ref(m, a[0])
         o = val(m, r)
